@@ -348,6 +348,120 @@ func (g *gen) randGenesis(at int) {
 	g.genesisOp(cid, ih, t, off, pa)
 }
 
+// pickFrom: a value of the list outside `not` (when there is one)
+func pickFrom(r *hx.Rng, p []string, not ...string) string {
+	for try := 0; try < 40; try++ {
+		v := p[r.Intn(len(p))]
+		ok := true
+		for _, n := range not {
+			ok = ok && v != n
+		}
+		if ok {
+			return v
+		}
+	}
+	return p[r.Intn(len(p))]
+}
+
+// sameCommand: histories of loads through ONE command object (`cmd=1`: parsed once, every load and
+// save->load of the scenario goes through it) while the file changes in between - by hand, by
+// removal, by SaveAsYaml - with and without flags on the command line. What a Load returns may
+// depend on the command line, the file as it is now and the defaults only.
+func (g *gen) sameCommand(tier string) {
+	r, w, opts := g.r, g.w, g.options()
+	for _, f := range opts {
+		// (a) nothing on the command line: file v1 -> file v2 -> no file -> SaveAsYaml v3 -> file v1;
+		// then the same through a new command object
+		v1 := pick(r, f, f.Def)
+		v2 := pick(r, f, f.Def, v1)
+		v3 := pickFrom(r, savePool(f), f.Def, v1, v2)
+		fmt.Fprintln(w, "reset")
+		fmt.Fprintf(w, "load cmd=1 f=%s fl=- fi=%s\n", f.Go, showPairs([]pair{{f.YAML, v1}}))
+		fmt.Fprintf(w, "load cmd=1 f=%s fl=- fi=%s\n", f.Go, showPairs([]pair{{f.YAML, v2}}))
+		fmt.Fprintf(w, "load cmd=1 f=%s fl=- fi=-\n", f.Go)
+		fmt.Fprintf(w, "save cmd=1 set=%s\n", showPairs([]pair{{f.Go, v3}}))
+		fmt.Fprintf(w, "load cmd=1 f=%s fl=- fi=%s\n", f.Go, showPairs([]pair{{f.YAML, v1}}))
+		fmt.Fprintf(w, "load cmd=1 newcmd=1 f=%s fl=- fi=%s\n", f.Go, showPairs([]pair{{f.YAML, v2}}))
+		fmt.Fprintf(w, "load cmd=1 f=%s fl=- fi=%s\n", f.Go, showPairs([]pair{{f.YAML, v1}}))
+		// (b) the flag naming the option is on the command line, the file changes for the option and
+		// for a neighbour: the option keeps the flag's value, the neighbour follows the file
+		nf, has := g.flagNaming(f)
+		if !has {
+			continue
+		}
+		nb := opts[r.Intn(len(opts))]
+		if nb.Go == f.Go {
+			continue
+		}
+		fv := pick(r, f, f.Def, v1, v2)
+		flS := showPairs([]pair{{nf.Name, fv}})
+		n1 := pick(r, nb, nb.Def)
+		n2 := pick(r, nb, nb.Def, n1)
+		n3 := pickFrom(r, savePool(nb), nb.Def, n1, n2)
+		fmt.Fprintln(w, "reset")
+		fmt.Fprintf(w, "load cmd=1 f=%s fl=%s fi=%s\n", f.Go, flS, showPairs([]pair{{f.YAML, v1}, {nb.YAML, n1}}))
+		fmt.Fprintf(w, "load cmd=1 f=%s fl=%s fi=%s\n", nb.Go, flS, showPairs([]pair{{nb.YAML, n2}, {f.YAML, v2}}))
+		fmt.Fprintf(w, "save cmd=1 fl=%s set=%s\n", flS, showPairs([]pair{{f.Go, v3}, {nb.Go, n3}}))
+		fmt.Fprintf(w, "load cmd=1 f=%s fl=%s fi=-\n", nb.Go, flS)
+		// the command line changes: that is another command object (same home)
+		fmt.Fprintf(w, "load cmd=1 f=%s fl=- fi=%s\n", f.Go, showPairs([]pair{{f.YAML, v2}, {nb.YAML, n1}}))
+	}
+	// (c) whole configurations written by SaveAsYaml one after the other, loaded through one command
+	var allZero, allOther []pair
+	for _, f := range opts {
+		if z, ok := zeroOf(f); ok {
+			allZero = append(allZero, pair{f.Go, z})
+			mv := mustValues(f, true)
+			allOther = append(allOther, pair{f.Go, mv[len(mv)-1]})
+		}
+	}
+	fmt.Fprintln(w, "reset")
+	fmt.Fprintf(w, "save cmd=1 set=%s\n", showPairs(allOther))
+	fmt.Fprintf(w, "save cmd=1 set=%s\n", showPairs(allZero))
+	fmt.Fprintln(w, "save cmd=1 set=-")
+	fmt.Fprintf(w, "save cmd=1 set=%s\n", showPairs(allOther))
+	fmt.Fprintf(w, "load cmd=1 f=%s fl=- fi=-\n", opts[0].Go)
+	// (d) random histories: a random command line fixed for the scenario, random files and saves
+	n := 4
+	if tier == "thorough" {
+		n = 30
+	}
+	for i := 0; i < n; i++ {
+		fmt.Fprintln(w, "reset")
+		var fl []pair
+		for _, f := range opts {
+			if nf, has := g.flagNaming(f); has && r.Chance(12) {
+				fl = append(fl, pair{nf.Name, pick(r, f, f.Def)})
+			}
+		}
+		flS := showPairs(fl)
+		for step := 0; step < 8; step++ {
+			focus := opts[r.Intn(len(opts))]
+			if r.Chance(35) {
+				var set []pair
+				for _, f := range opts {
+					if r.Chance(30) {
+						set = append(set, pair{f.Go, pickFrom(r, savePool(f))})
+					}
+				}
+				fmt.Fprintf(w, "save cmd=1 fl=%s set=%s\n", flS, showPairs(set))
+				continue
+			}
+			var fi []pair
+			if !r.Chance(10) {
+				fi = append(fi, pair{focus.YAML, pick(r, focus, focus.Def)})
+				for _, f := range opts {
+					if f.Go != focus.Go && r.Chance(20) {
+						fi = append(fi, pair{f.YAML, pick(r, f, f.Def)})
+					}
+				}
+				g.r2shuffle(fi)
+			}
+			fmt.Fprintf(w, "load cmd=1 f=%s fl=%s fi=%s\n", focus.Go, flS, showPairs(fi))
+		}
+	}
+}
+
 // Gen writes the op lines. Every field and every flag discovered in the compiled code is covered
 // in every run (both tiers); the tiers differ in how many values and combinations are drawn.
 func Gen(r *hx.Rng, tier string, w io.Writer) {
@@ -498,6 +612,9 @@ func Gen(r *hx.Rng, tier string, w io.Writer) {
 		fmt.Fprintf(w, "load f=%s fl=- fi=%s\n", f.Go, showPairs([]pair{{f.YAML, pick(r, f, f.Def)}}))
 		fmt.Fprintf(w, "load f=%s fl=- fi=-\n", f.Go)
 	}
+
+	// 5b. histories through one command object
+	g.sameCommand(tier)
 
 	// 6. malformed command lines
 	fmt.Fprintln(w, "reset")
